@@ -41,6 +41,11 @@ class SymArray(_np.ndarray):
             r = f(r, v)
         return r
 
+    def astype(self, dtype, *a, **k):
+        if has_sym(self) and dtype in (float, "float", "float64", _np.float64):
+            return self.copy()  # proxies stand for floats already
+        return _np.ndarray.astype(self, dtype, *a, **k)
+
     def max(self, axis=None, **k):
         return self._fold(smax, axis, "max")
 
